@@ -442,42 +442,26 @@ def clause_select_bytes(R, F):
         if mentions(t, "raw"):
             return "raw"
         return None
-    for p in enumerate_paths(fn):
-        cons = {}
-        feasible = True
-        for i, b in enumerate(p[:-1]):
-            t = fn.term(b)
-            if t["k"] != "switch":
-                continue
-            d = origin(fn, t["discr"])
-            var, val = None, None
-            if d[0] == "discr" and len(d) > 3 and d[3]:
-                var = which_var(d[1])
-                vals = [v for v, tb in t["targets"] if tb == p[i + 1]]
-                names = [n for (n, v2) in d[3] if v2 in vals]
-                if not names and t["otherwise"] == p[i + 1]:
-                    names = [n for (n, v2) in d[3] if v2 not in [v for v, _ in t["targets"]]]
-                if len(names) == 1:
-                    val = names[0]
-            else:
-                be = bool_edge(fn, b, p[i + 1])
-                if be and be[1] is not None and be[0][0] == "call" and be[0][1].split("::")[-1] in ("is_some", "is_none"):
-                    var = which_var(be[0])
-                    pos = be[0][1].split("::")[-1] == "is_some"
-                    val = "Some" if (pos == be[1]) else "None"
-            if var is None or val is None:
-                continue
-            if var in cons and cons[var] != val:
-                feasible = False
-                break
-            cons[var] = val
-        if not feasible:
-            continue
-        is_err = any(b in eb for b in p)
-        for r in ("Some", "None"):
-            for b6 in ("Some", "None"):
-                if cons.get("raw", r) == r and cons.get("b64", b6) == b6:
-                    table.setdefault((r, b6), set()).add("Err" if is_err else "Ok")
+    # abstract execution over the four presence combinations: every switch the combination decides (a match on the pair, an
+    # `is_some()` test, a count of the encodings present compared with 0 / 1, ...) takes only its decided edge
+    from terms import explore_under
+    for r in ("Some", "None"):
+        for b6 in ("Some", "None"):
+            def env_of(t, r=r, b6=b6):
+                x = t
+                while x[0] in ("ref", "deref", "cast"):
+                    x = x[1]
+                if x[0] == "param":
+                    v = which_var(x)
+                    return {"raw": r, "b64": b6}.get(v)
+                return None
+            rets, visited = explore_under(fn, env_of)
+            outside = set(range(len(fn.blocks))) - visited
+            # MIR funnels every path into one return block: the outcome is whether the path passed an error block
+            if any(rb in fn.reachable(0, avoid=set(eb) | outside) for rb in rets):
+                table.setdefault((r, b6), set()).add("Ok")
+            if any(e in visited and any(rb in fn.reachable(e, avoid=outside) for rb in rets) for e in eb):
+                table.setdefault((r, b6), set()).add("Err")
     want = {("Some", "None"): {"Ok"}, ("None", "Some"): {"Ok"}, ("None", "None"): {"Err"}, ("Some", "Some"): {"Err"}}
     for k, v in want.items():
         R.ob(table.get(k) == v, "GUARD", fn.where(), "GUARD|select_bytes|%s-%s" % k,
